@@ -849,6 +849,14 @@ func ruleR15t(c *Ctx, r *Report) {
 				return true, true
 			}
 		}
+		// a set kept as map[K]bool: the value looked up is the membership
+		if lk, ok := base.(*ssa.Lookup); ok && !lk.CommaOk {
+			if mt, ok := lk.X.Type().Underlying().(*types.Map); ok {
+				if b, ok := mt.Elem().Underlying().(*types.Basic); ok && b.Kind() == types.Bool {
+					return true, true
+				}
+			}
+		}
 		return false, false
 	})
 	bad := ""
